@@ -63,6 +63,7 @@ fn judge_solution(family: &str, problem: &PProblem, json: &Value) -> Vec<(String
     let mut seen = HashSet::new();
     oracle::check(problem, json, &OracleOptions { tol: oracle::tolerance(family, problem) })
         .into_iter()
+        .filter(|f| oracle::applies(f, family, problem))
         // a tour over an unreachable leg is named by problem and leg (as C01 does): "<rule>:<problem>:<leg>|<family>" is split by `key_of`
         .map(|f| (super::c01::finding_key(&f, family, problem), f.what))
         .filter(|(k, _)| seen.insert(k.clone()))
